@@ -311,6 +311,88 @@ def alone_trace_def(out, canon):
     return coq_trace(evs, cmap, vmap)
 
 
+# ----------------------------------------------------------------------------- saved artifacts (web-interface mode)
+
+ART_KEY = "C14:saved-files-depend-on-batch-composition@run_model_no_trade"
+ART_SMALL = ["URY", "LSO", "SLV", "ALB", "NZL", "JPN", "FRA", "DEU", "ECU", "AUS"]
+
+
+def art_payload(countries, preset):
+    return {"mode": "artifacts", "presets": {preset: PRESETS[preset]}, "preset": preset, "countries": list(countries)}
+
+
+def art_plan(ctx):
+    """groups (a, b, preset): run_model_no_trade(return_results=True, save_all_results=True) for [a, b] in one call versus
+    [a] and [b] each alone, every one in its own fresh process and results directory"""
+    rng = ctx.rng
+    groups = [("ARG", "URY", "nw_plain")]
+    n = 2 if ctx.quick else 5
+    while len(groups) < n:
+        a, b = rng.sample(ART_SMALL, 2)
+        g = (a, b, rng.choice(["baseline", "nw_plain", "nw_resilient", "heads", "cs_only"]))
+        if g not in groups:
+            groups.append(g)
+    return groups
+
+
+def first_line_difference(ta, tb):
+    la, lb = ta.splitlines(), tb.splitlines()
+    for i, (x, y) in enumerate(zip(la, lb)):
+        if x != y:
+            return {"line": i + 1, "alone": x[:160], "together": y[:160]}
+    return {"line": min(len(la), len(lb)) + 1, "alone": f"<{len(la)} lines>", "together": f"<{len(lb)} lines>"}
+
+
+def compare_artifacts(alone, both):
+    """alone: output for [c]; both: output for [a, b].  -> (country name, list of differences)"""
+    if not alone["ok"] or not both["ok"]:
+        if alone["ok"] != both["ok"] or alone.get("err") != both.get("err"):
+            return None, [{"what": "one of the calls failed", "alone": alone.get("err", "completes"), "together": both.get("err", "completes")}]
+        return None, []
+    name = alone["order"][0]
+    diffs = []
+    mark = "_" + name + "_"
+    fa = {k: v for k, v in alone["files"].items() if mark in k}
+    fb = {k: v for k, v in both["files"].items() if mark in k}
+    for fn in sorted(set(fa) | set(fb)):
+        if fn not in fa or fn not in fb:
+            diffs.append({"file": fn, "what": "written only " + ("alone" if fn in fa else "together")})
+        elif fa[fn]["sha256"] != fb[fn]["sha256"]:
+            diffs.append(dict(first_line_difference(fa[fn]["text"], fb[fn]["text"]), file=fn, what="contents differ"))
+    ra, rb = alone["results"].get(name), both["results"].get(name)
+    if rb is None or ra["digest"] != rb["digest"]:
+        diffs.append({"what": "returned in-memory result differs", "parts": differing_parts(ra, rb)})
+    return name, diffs
+
+
+def artifact_audit(ctx, groups, outs):
+    nfiles, ncmp = 0, 0
+    reported = False
+    for gi, (a, b, preset) in enumerate(groups):
+        both = outs[f"art{gi}_both"]
+        for c, tag in ((a, "a"), (b, "b")):
+            alone = outs[f"art{gi}_{tag}"]
+            name, diffs = compare_artifacts(alone, both)
+            last = both["ok"] and alone["ok"] and both["order"][-1] == alone["order"][0]
+            ctx.count(("artifacts", a, b, preset, c), nontrivial=bool(alone["ok"] and both["ok"] and not last))
+            ncmp += 1
+            if name:
+                nfiles += sum(1 for k in alone["files"] if "_" + name + "_" in k)
+            if diffs and not reported:
+                reported = True
+                d0 = diffs[0]
+                ctx.violation(ART_KEY,
+                              f"what run_model_no_trade(return_results=True, save_all_results=True) saves/returns for {c} ({name}) "
+                              f"under preset {preset} depends on the other countries of the same call: countries_list=[{c}] vs "
+                              f"[{a}, {b}]: {len(diffs)} difference(s), first: {json.dumps(d0)[:400]}",
+                              {"kind": "counterexample", "check": "artifacts", "presets": PRESETS, "preset": preset, "country": c,
+                               "history_A": {"countries_list": [a, b], "return_results": True, "save_all_results": True},
+                               "history_B": {"countries_list": [c], "return_results": True, "save_all_results": True},
+                               "differences": diffs[:10],
+                               "requires": "every csv whose name carries the country, and the returned result, identical"})
+    ctx.notes["saved_artifacts_audit"] = {"groups": [list(g) for g in groups], "comparisons": ncmp, "csv_files_compared": nfiles}
+
+
 # ----------------------------------------------------------------------------- the check
 
 EXPLANATION = (
@@ -328,7 +410,9 @@ EXPLANATION = (
     "recorded cells are all the shared state that matters (state in C extensions, PuLP/CBC, numpy, pandas, the file system "
     "is outside the snapshot) - this rests on the differential runs: sampled histories (orders, repetitions, two countries "
     "in one call, interleaved overwrites of the global settings) compared bit for bit (SHA-256 over headline, every monthly "
-    "series, herd trajectories, remaining result attributes) with each run alone in a fresh process.")
+    "series, herd trajectories, remaining result attributes) with each run alone in a fresh process; and, in web-interface "
+    "mode (return_results and save_all_results), every csv file saved for a country in a two-country call compared byte for "
+    "byte with the files of the same country run alone.")
 
 
 def run(ctx):
@@ -365,10 +449,15 @@ def run(ctx):
         jobs.append((f"again{i}", payload_of([run_step(0, [c], p)], trace=False, snapshot=False), str(4242 + i)))
     for k, b in enumerate(batches):
         jobs.append((f"batch{k}", payload_of(b), "0"))
+    groups = art_plan(ctx)
+    for gi, (a, b, preset) in enumerate(groups):
+        jobs += [(f"art{gi}_both", art_payload([a, b], preset), "0"), (f"art{gi}_a", art_payload([a], preset), "0"),
+                 (f"art{gi}_b", art_payload([b], preset), "0")]
     ctx.log(f"{len(pairs)} pairs, {len(batches)} histories ({sum(len(b) for b in batches)} steps), {len(jobs)} fresh processes")
     outs = launch_all(ctx, jobs)
     ctx.log("implementation runs done")
 
+    artifact_audit(ctx, groups, outs)
     canon = Canon()
     alone, name_of = {}, {}
     for i, pr in enumerate(pairs):
@@ -642,6 +731,17 @@ def replay(rep):
             return 1
         print("  identical: not reproduced")
         return 0
+    if check == "artifacts":
+        a_list, c_list = rep["history_A"]["countries_list"], rep["history_B"]["countries_list"]
+        outs = launch_all(ctx, [("both", art_payload(a_list, rep["preset"]), "0"), ("alone", art_payload(c_list, rep["preset"]), "0")])
+        name, diffs = compare_artifacts(outs["alone"], outs["both"])
+        print("run_model_no_trade(return_results=True, save_all_results=True), preset", rep["preset"])
+        print("  together:", a_list, " alone:", c_list, " country:", name)
+        for d in diffs[:10]:
+            print("  difference:", json.dumps(d)[:400])
+        if not diffs:
+            print("  saved csv files and returned result identical: not reproduced")
+        return 1 if diffs else 0
     out = launch(ctx, "A", payload_of(rep["history_A"]))
     last = [s for s in out["steps"] if s["kind"] == "run"][-1]
     if check == "trace":
